@@ -64,9 +64,16 @@ mod absolute_to_relative_time {
         let deadline = Duration::deserialize(deserializer)?;
         #[cfg(tarpc_verif)]
         if true {
-            return Ok(crate::verif::now() + deadline);
+            return Ok(saturating_add(crate::verif::now(), deadline));
         }
-        Ok(Instant::now() + deadline)
+        Ok(saturating_add(Instant::now(), deadline))
+    }
+
+    /// A peer can send any duration; one that does not fit in an `Instant` means "no deadline
+    /// worth speaking of", not a reason to panic.
+    fn saturating_add(now: Instant, duration: Duration) -> Instant {
+        now.checked_add(duration)
+            .unwrap_or_else(|| now + Duration::from_secs(u32::MAX.into()))
     }
 
     #[cfg(test)]
